@@ -333,7 +333,7 @@ theorem extractHeaders_early (L : Language) (hL : L ∈ Gen.all.map (·.2)) {tok
   exact fun hd hhd => concatHeaders_early L.pats hs0 (shipped_headerPatOK L hL) h0 hd (hsub.subset hhd)
 
 /-- `HeaderWF` for the shipped languages, proved here without the assumed lemma (only success of
-`extractHeaders`, i.e. `extractHeaders_total`, is taken from `AssumedHeaders`) -/
+`extractHeaders` is an assumption here; it is property C15, `Lemmas/HeadersWF.lean`) -/
 theorem extractHeaders_wf' (L : Language) (hL : L ∈ Gen.all.map (·.2)) {toks : List Tok}
     {hs : List Header} (h : extractHeaders L toks = .ok hs) : ∀ hd ∈ hs, HeaderWF toks hd :=
   fun hd hhd => (extractHeaders_early L hL h hd hhd).wf
